@@ -1,0 +1,10 @@
+//go:build !verif
+
+// Package verifhook holds scheduling hooks used only by the deterministic
+// simulation harness. Without the "verif" build tag every function is an
+// empty, inlinable no-op.
+package verifhook
+
+func Acquire(lock any, kind string, a, b uint64) {}
+func Release(lock any)                           {}
+func Event(name string, kv ...any)               {}
